@@ -350,6 +350,30 @@ func c04(c *ctx) {
 		r.Check(ok, "R3/DistributeCommitteeRewards/burn-remainder", c.p.Pos(distribute.Pos()), "burns "+burn+" and zeroes "+zeroed, "DistributeCommitteeRewards burns "+burn+" but zeroes pool "+zeroed+": expected SubFromTotalSupply(pool.Amount − totalDistributed) for the pool that is zeroed")
 	}
 
+	// ------------------------------------------------------------------ R5
+	r.Rule("R5", "PAIR", "a slash burns what it removes: in SlashValidator every removal of stake (deleting the record, or storing the reduced stake) happens only after SubFromTotalSupply succeeded for the difference old − new", 2)
+	if stF := c.p.Field("fsm", "Validator", "StakedAmount"); stF != nil {
+		c.mpt(mptSpec{rule: "R5", fn: slash, events: evSet{"SubFromTotalSupply": {l.subTotal}},
+			target: func(in ssa.Instruction, st *PState, e *pathEngine) string {
+				if cc := callCommon(in); cc != nil && callIs(cc, l.deleteValidator) {
+					return "delete-record"
+				}
+				if f, _, _ := storeField(in); f == stF && in.Parent() == e.r.Fn {
+					return "reduce-stake"
+				}
+				return ""
+			},
+			reqs: func(string) []string { return []string{"SubFromTotalSupply.ok"} }, minTarget: 2})
+		var after string
+		for _, st := range storesTo(slash, stF) {
+			after = c.p.path(st.Val)
+		}
+		for _, cs := range callsIn(slash, false, l.subTotal) {
+			p := c.p.path(argOf(cs, 0))
+			r.Check(after != "" && p == "($1.StakedAmount - "+after+")", "R5/SlashValidator/burn-amount", c.p.Pos(cs.Pos()), "burns old stake − new stake", "SlashValidator burns "+p+" but the stake becomes "+after+": expected old − new")
+		}
+	}
+
 	// ------------------------------------------------------------------ R4
 	r.Rule("R4", "WHO", "ledger layering (re-audit gate): Account.Amount and Pool.Amount are written only by the ledger primitives, the genesis loaders, the reward-pool zeroing and the AMM batch code", 6)
 	if f := c.field("fsm", "Account", "Amount"); f != nil {
